@@ -10,6 +10,8 @@ OBLIGATIONS = [
        desc='rculfqueue dequeue on every quiescent shape ([dummy]? + 0, 1 or >= 2 real nodes; for >= 2 the rest of the chain and the tail are unconstrained pointers - footprint argument): oldest real node, NULL iff none, dummy never returned, leading dummy retired via queue_call_rcu exactly once, nothing freed directly, fresh dummy appended before the last node leaves'),
     Ob(name='C12.O1.destroy', harness=H, entry='h_destroy', unwind=1, min_covers=3, functions=F, checks=CK,
        desc='rculfqueue destroy: 0 and frees the dummy iff the queue is empty, else -EPERM and frees nothing'),
+    Ob(name='C12.O1.destroy_trailing_dummy', harness=H, entry='h_destroy_trailing_dummy', unwind=2, min_covers=2, functions=F, checks=CK,
+       desc='cds_lfq_destroy_rcu on head -> real node(s) -> trailing dummy: -EPERM, nothing freed, nothing changed (emptiness is decided at the head)'),
     Ob(name='C12.O1.init', harness=H, entry='h_init', unwind=2, cover=False, functions=F, checks=CK, desc='init: one dummy, head == tail, empty, destroyable'),
     Ob(name='C12.O2.dequeue_env', harness=H, entry='h_dequeue_env', tier='B', bound='<= 2 real nodes (+ optional leading dummy), 1 concurrent enqueue split into its CAS steps, retry loops unwound 4x',
        defines=('ENV_MODE',), unwind=7, unwindset=('_cds_lfq_dequeue_rcu.0:4', '_cds_lfq_enqueue_rcu.0:4'), cbmc_flags=('--no-unwinding-assertions',), min_covers=3, functions=F, checks=CK, timeout=300,
@@ -18,6 +20,11 @@ OBLIGATIONS = [
        defines=('ENV_MODE',), unwind=7, unwindset=('_cds_lfq_enqueue_rcu.0:4',), cbmc_flags=('--no-unwinding-assertions',), min_covers=3, functions=F, checks=CK, timeout=300,
        desc='enqueue with another enqueuer acting between any two of its shared accesses (incl. appending behind the new node before the tail update): both nodes queued exactly once, no cycle, the tail is never dragged back behind a node appended meanwhile'),
 ]
+# operations run from the states a suspended enqueuer / pusher leaves behind (shared with C17; late import via engine/check.py):
+# nothing is lost or reported as 'end' while a link is still in flight
+def _shared():
+    from obligations import C17 as _c17
+    return [o for o in _c17.OBLIGATIONS if o.name in ('C17.O4.frozen.lfq_enqueue_frozen', 'C17.O4.frozen.lfq_dequeue_frozen')]
 META = {
     'level': 'proof', 'bounded_apart': True,
     'trusted_base': ['CBMC 6.11 (incl. its malloc/free model)', 'sequential meaning of the uatomic/cmm primitives', 'canonical pool layout'],
